@@ -17,6 +17,8 @@ SCOPES = ["libraries", "cells", "ports", "nets", "instances"]
 @st.composite
 def name_sets(draw):
     n = draw(st.integers(1, 8))
+    if draw(st.integers(0, 11)) == 0:
+        n = draw(st.integers(11, 14))   # enough colliding siblings for a counter to gain a digit
     names = []
     long_prefix = None
     for _ in range(n):
@@ -26,9 +28,10 @@ def name_sets(draw):
         elif k <= 5 and names:
             # collide with an earlier name: case only, or equal after sanitising
             src = draw(st.sampled_from(names))
-            m = draw(st.integers(0, 3))
+            m = draw(st.integers(0, 5))
+            # (4, 5: one more spelling that sanitises to the same identifier as src)
             nm = [src.swapcase(), src.upper(), src.replace("_", " ").replace("-", "_"),
-                  src + "_sdn_1_"][m]
+                  src + "_sdn_1_", src.replace("_", "."), src.replace("_", "/")][m]
         elif k == 6:
             # long names sharing their first 256 characters
             if long_prefix is None:
